@@ -258,6 +258,21 @@ theorem generated_processReadBuf_eq (rb : Bytes) (d : Nat) :
       · simp [Go.optIdx, hpos, Go.slice_from, Go.sliceOK_from prb i (by omega)]
       · simp [Go.optIdx, hpos]
 
+/-- outside the model's domain (`d : Nat`): with a negative search depth the translated body fails
+its bounds test on every buffer — the code panics (`rb[len(rb)-searchDepth:]`, slice bounds out of
+range); `WithPromptSearchDepth` does not validate its argument -/
+theorem generated_processReadBuf_negative_depth_panics (rb : Bytes) (d : Int) (h : d < 0) :
+    Gen.Bodies.Channel.processReadBuf rb d = none := by
+  unfold Gen.Bodies.Channel.processReadBuf
+  have h0 : (0 : Int) ≤ Go.len rb := by simp [Go.len]
+  have h1 : ¬ Go.len rb ≤ d := by omega
+  have h2 : Go.sliceOK (Go.len rb) (Go.len rb - d) (Go.len rb) = false := by
+    simp only [Go.sliceOK, Bool.and_eq_false_iff, decide_eq_false_iff_not]
+    left; right; omega
+  simp [h1, h2]
+
+example : Gen.Bodies.Channel.processReadBuf [97, 98, 99] (-1) = none := by decide
+
 /-- the body of `(*Channel).processOut` as the translator renders it from the current source
 (`make` + `range` loop with indexed stores, `bytes.Split/TrimRight/Join/Trim`; `PromptPattern.
 ReplaceAll(·, nil)` and `ReturnChar` are the `Cfg` fields) never indexes out of range and computes
